@@ -171,3 +171,91 @@ CHECKS = {
     'C08': lambda tier, seed: run_conc_prop('C08', tier, seed),
     'C09': lambda tier, seed: run_conc_prop('C09', tier, seed),
 }
+
+
+# =============================================================================================
+# C10 (partial claim): lock discipline (Eraser over access events) + publication order (Publish.tla)
+# =============================================================================================
+import re
+
+
+def extract_orders(repo):
+    """Memory orders at the named publication sites, read from the source (static conformance step)."""
+    src = open(os.path.join(repo, 'src', 'skiplist.c')).read()
+    out = {}
+
+    def body(name):
+        m = re.search(r'\n' + name + r'\([^)]*\)\s*\{(.*?)\n\}', src, re.S)
+        return m.group(1) if m else None
+    b = body('ldb_skipnode_set')
+    m = re.search(r'ldb_atomic_store_ptr\([^;]*?(ldb_order_\w+)\)', b or '')
+    out['publish'] = m.group(1).replace('ldb_order_', '') if m else None
+    b = body('ldb_skipnode_next')
+    m = re.search(r'ldb_atomic_load_ptr\([^;]*?(ldb_order_\w+)\)', b or '')
+    out['read'] = m.group(1).replace('ldb_order_', '') if m else None
+    ins = body('ldb_skiplist_insert') or ''
+    out['insert_publishes_with_barrier'] = bool(re.search(r'ldb_skipnode_set\(prev\[i\], i, x\)', ins))
+    readers_ok = True
+    for fn in ('ldb_skiplist_find_ge', 'ldb_skiplist_find_lt', 'ldb_skiplist_find_last'):
+        fb = body(fn)
+        if fb is None: readers_ok = None; break
+        if 'ldb_skipnode_next_nb(' in fb: readers_ok = False
+    out['readers_use_acquire_loads'] = readers_ok
+    return out
+
+
+def run_c10(tier, seed):
+    prop = 'C10'
+    t0 = time.time(); out = Outcome(prop); quick = tier == 'quick'
+    lib = c.build_lib(); exe = c.build_driver('conc', lib)
+    runs = [(2, 120, 'mix'), (4, 100, 'mix'), (6, 80, 'mix'), (8, 60, 'mix'), (4, 100, 'stall')] if quick else [(t, o, m) for _ in range(20) for (t, o, m) in [(2, 200, 'mix'), (4, 150, 'mix'), (6, 120, 'mix'), (8, 100, 'mix'), (4, 150, 'stall'), (8, 80, 'stall')]]
+    execs = [CExec(seed * 10000 + 500 + i, t, o, m) for i, (t, o, m) in enumerate(runs)]
+    c.pmap(lambda ex: run_conc(exe, ex, extra_env={'LCDB_VERIF_ACC': '1'}), execs, 6)
+    st = dict(executions=0, accesses=0, objects=set(), states=0)
+
+    def validate(ex):
+        evs = [e for e in sr.load_events(ex.trace) if e['e'] in ('Acc', 'CloseWaited', 'Reset', 'open')]
+        path = os.path.join(ex.dir, 'acc.ndjson'); sr.write_trace(path, evs)
+        return ex, evs, c.trace_validate('LocksetTrace', 'LocksetTrace.cfg', path, timeout=900, heap='4g'), path
+    sample = None
+    for ex, evs, r, path in c.pmap(validate, [e for e in execs if e.rc == 0], 6):
+        st['executions'] += 1; st['accesses'] += sum(1 for e in evs if e['e'] == 'Acc'); st['states'] += r['res'].distinct
+        for e in evs:
+            if e['e'] == 'Acc': st['objects'].add(e['obj'])
+        if sample is None: sample = [{k: v for k, v in e.items() if k != 'n'} for e in evs[10:18]]
+        if not r['accepted'] and not out.full():
+            idx = r['prefix'] or 0
+            bad = evs[idx] if idx < len(evs) else None
+            d = c.replay_dir(prop, 'lockset'); shutil.copy(path, os.path.join(d, 'acc_trace.ndjson'))
+            json.dump(dict(kind='conc', prop=prop, exec=ex.desc(), violated=r['violated'], line=idx, event=bad), open(os.path.join(d, 'replay.json'), 'w'), indent=1)
+            out.violation('shared object %s is modified by several threads with no common lock (access %s)' % ((bad or {}).get('obj'), json.dumps(bad)[:200]), d,
+                          dict(kind='lockset', obj=(bad or {}).get('obj')))
+    for ex in execs:
+        if ex.dir: c.rmtree(ex.dir)
+    st['objects'] = sorted(st['objects'])
+    # publication order: constants from the source, checked by TLC
+    orders = extract_orders(c.REPO)
+    pub = dict(orders=orders, covered=False)
+    if orders['publish'] and orders['read'] and orders['readers_use_acquire_loads'] is not None:
+        pub['covered'] = True
+        d = c.scratch('pub'); cfgp = os.path.join(d, 'pub.cfg')
+        po = orders['publish'] if orders['insert_publishes_with_barrier'] else 'relaxed'
+        ro = orders['read'] if orders['readers_use_acquire_loads'] else 'relaxed'
+        open(cfgp, 'w').write('SPECIFICATION Spec\nCONSTANTS\n  Nodes = {1, 2}\n  Readers = {1, 2}\n  PublishOrder = "%s"\n  ReadOrder = "%s"\nINVARIANT NoUninitRead\nCHECK_DEADLOCK FALSE\n' % (po, ro))
+        r = c.tlc('Publish', cfgp, workers=2, timeout=120, deadlock=False)
+        pub.update(states=r.distinct, publish_order=po, read_order=ro)
+        if r.violated:
+            rd = c.replay_dir(prop, 'publish'); open(os.path.join(rd, 'tlc.out'), 'w').write(r.out)
+            json.dump(dict(kind='mc', module='Publish', orders=orders), open(os.path.join(rd, 'replay.json'), 'w'))
+            out.violation('skiplist publication is not release/acquire ordered (publish=%s read=%s): a reader can dereference an uninitialised node' % (po, ro), rd, dict(kind='publish'))
+        c.rmtree(d)
+    rc = out.finish()
+    cov = dict(explanation='Partial claim (see DESIGN.md section 7): (a) Eraser lockset discipline over the instrumented shared objects %s in %d real multi-threaded executions (%d accesses), decided by TLC on LocksetTrace.tla; (b) memory orders at the skiplist publication sites extracted from the source and model-checked in Publish.tla. An unsynchronised access to an un-instrumented field is invisible to this check.' % (st['objects'], st['executions'], st['accesses']),
+               evaluations=max(1, st['accesses']), distinct_nontrivial=max(2, len(st['objects'])), samples=[sample or []], lockset=st, publish=pub, states=st['states'] + pub.get('states', 0))
+    c.write_evidence(prop, tier, seed, 'other', cov, time.time() - t0, violations=len(out.violations),
+                     assumptions=['only the declared synchronisation protocol is checked: instrumented objects and named publication sites',
+                                  'accesses after the close handshake are ordered by thread join and start a new epoch'])
+    return rc
+
+
+CHECKS['C10'] = run_c10
